@@ -32,7 +32,10 @@ def _scope_locals(fn) -> set:
     todo = list(body)
     while todo:
         n = todo.pop()
-        if isinstance(n, (ast.FunctionDef, ast.AsyncFunctionDef, ast.ClassDef, ast.Lambda)):
+        if isinstance(n, (ast.FunctionDef, ast.AsyncFunctionDef)):
+            assigned.add(n.name)          # a nested helper's name is a local binding of the enclosing function
+            continue
+        if isinstance(n, (ast.ClassDef, ast.Lambda)):
             continue
         if isinstance(n, (ast.Global, ast.Nonlocal)):
             glob |= set(n.names)
@@ -73,6 +76,14 @@ class _Alpha(ast.NodeVisitor):
     def visit_FunctionDef(self, node):
         for d in node.args.defaults + [k for k in node.args.kw_defaults if k is not None]:
             self.visit(d)
+        for sid, locs, params in reversed(self.scopes):     # nested helper: its name is a local of the enclosing scope
+            if node.name in locs:
+                key = (sid, node.name)
+                if key not in self.order:
+                    self.order.append(key)
+                if self.rename is not None and key in self.rename:
+                    node.name = self.rename[key]
+                break
         self._enter(node)
         for s in node.body:
             self.visit(s)
@@ -148,4 +159,6 @@ def undo_pure_renames(qual: str, fn: ast.AST, ref: Dict[str, Dict]) -> bool:
             n.id = n.id[1:]
         elif isinstance(n, ast.arg) and n.arg.startswith("\0"):
             n.arg = n.arg[1:]
+        elif isinstance(n, (ast.FunctionDef, ast.AsyncFunctionDef)) and n.name.startswith("\0"):
+            n.name = n.name[1:]
     return True
